@@ -341,7 +341,16 @@ func decideCase(r req, b [][]byte) (string, error) {
 			if r.Opt&locNoReader != 0 {
 				lo.UEFIVariableReader = nil
 			}
-			_, err = exel.Locate(uint32(r.Opt&0xff), b[0], lo)
+			locType := uint32(r.Opt & 0xff)
+			if r.Str != "" {
+				// a full 32-bit locator type travels in Str (the option word's low byte holds 0..255 only)
+				v, perr := strconv.ParseUint(r.Str, 10, 32)
+				if perr != nil {
+					return "", fmt.Errorf("harness: locator type %q", r.Str)
+				}
+				locType = uint32(v)
+			}
+			_, err = exel.Locate(locType, b[0], lo)
 		case "cli":
 			err = runCLI(ctx, r, b)
 		default:
@@ -1057,16 +1066,20 @@ func verdictDep(t ev.TB, r req, total int, res isolate.Result, what string, dep 
 		return ev.Violation(t, "C07/cpu-unbounded/"+r.Entry, "%s did not finish: %s on %s", r.Entry, res.Msg, what)
 	}
 	if res.Alloc > budget {
-		key := "C07/alloc-unbounded/" + r.Entry
-		if strings.Contains(r.Entry, "CryptoAgileLog") || r.Entry == "extract.Endorsement" || r.Entry == "SP800155Event3" {
-			key = "C07/eventlog-prealloc"
-		}
-		return ev.Violation(t, key, "%s requested %d bytes from the allocator for %d input bytes (budget %d) on %s; outcome %s %s", r.Entry, res.Alloc, total, budget, what, res.Outcome, res.Msg)
+		return ev.Violation(t, allocKey(r.Entry), "%s requested %d bytes from the allocator for %d input bytes (budget %d) on %s; outcome %s %s", r.Entry, res.Alloc, total, budget, what, res.Outcome, res.Msg)
 	}
 	if res.CPUms > 20000 {
 		return ev.Violation(t, "C07/cpu-unbounded/"+r.Entry, "%s used %d ms CPU for %d input bytes on %s", r.Entry, res.CPUms, total, what)
 	}
 	return true
+}
+
+// allocKey is the root-cause key of an allocation out of proportion to the input at the given entry.
+func allocKey(entry string) string {
+	if strings.Contains(entry, "CryptoAgileLog") || entry == "extract.Endorsement" || entry == "SP800155Event3" {
+		return "C07/eventlog-prealloc"
+	}
+	return "C07/alloc-unbounded/" + entry
 }
 
 // depFor names the recorded dependency defect the request's attestation inputs trigger. Only blobs
